@@ -3,7 +3,7 @@
 E1, three complete slices:
  build   holder grammar x year form x 10 prefix styles -> make_copyright_line,
          read back with the tool's own reader; notices passed in are verbatim;
- merge   every subset (size <= 3 quick / <= 4 thorough) of a 36-notice universe
+ merge   every subset (size <= 3 quick / <= 4 thorough) of a 48-notice universe
          given to merge_copyright_lines, judged by refmodel.copyright;
  cli     annotate --copyright/--year/--copyright-prefix and
          annotate --merge-copyrights on files holding every subset of size <= 2,
@@ -35,7 +35,7 @@ HOLDERS = [
 YEARS = [None, "2020", "2019-2021", "2019 - 2021"]
 U_HOLDERS = ["Jane Doe", "Acme, Inc. <https://acme.example>", "Müller GmbH & Co. KG"]
 U_YEARS = [None, "2017", "2015-2016", "2019 - 2022"]
-U_PREFIXES = ["spdx", "string-c", "spdx-symbol"]
+U_PREFIXES = ["spdx", "string-c", "spdx-symbol", "symbol"]
 UNIVERSE = [(p, y, h) for h in U_HOLDERS for y in U_YEARS for p in U_PREFIXES]
 
 
@@ -71,6 +71,11 @@ def cases(tier, seed):
         for yopt in ("exclude", "one", "two", "default"):
             for h in HOLDERS[:6] if tier == "quick" else HOLDERS:
                 yield {"k": "cli-build", "h": h, "p": p, "yopt": yopt}
+    # the same through a project template (.reuse/templates), every holder
+    for h in HOLDERS:
+        for tpl in ("full", "hash.commented"):
+            for p in ("spdx", "string-c"):
+                yield {"k": "cli-build", "h": h, "p": p, "yopt": "one", "tpl": tpl}
     # CLI merge slice
     for size in range(0, 3):
         for sub in itertools.combinations(range(len(UNIVERSE)), size):
@@ -79,6 +84,13 @@ def cases(tier, seed):
                     if b == -1 and yopt == "one":
                         continue
                     yield {"k": "cli-merge", "s": list(sub), "b": b, "yopt": yopt}
+    # existing headers that hold notices and nothing else (no licence tag that would help to recognise the block as a header)
+    for i in range(len(UNIVERSE)):
+        for b in range(-1, len(U_HOLDERS)):
+            yield {"k": "cli-merge", "s": [i], "b": b, "yopt": "exclude", "nolic": True}
+    for i, j in itertools.combinations(range(len(UNIVERSE)), 2):
+        if UNIVERSE[i][2] == UNIVERSE[j][2]:
+            yield {"k": "cli-merge", "s": [i, j], "b": U_HOLDERS.index(UNIVERSE[i][2]), "yopt": "one", "nolic": True}
     # several notices of one holder handed over in one command, as complete notices (kept verbatim by the builder), with and without an existing header
     same = [(i, j) for i, j in itertools.combinations(range(len(UNIVERSE)), 2) if UNIVERSE[i][2] == UNIVERSE[j][2]]
     for i, j in same:
@@ -211,6 +223,12 @@ def ev_cli_build(c) -> R:
     root = fresh_dir("c20")
     (root / "f.py").write_text("x = 1\n")
     argv = ["--root", str(root), "annotate", "--copyright", c["h"]]
+    if c.get("tpl"):
+        from ..annot import template_recipe
+        from ..fstree import materialise
+
+        materialise(root, template_recipe([c["tpl"]]))
+        argv += ["--template", c["tpl"]]
     years_ok = None
     if c["yopt"] == "exclude":
         argv.append("--exclude-year")
@@ -247,8 +265,10 @@ def ev_cli_merge(c) -> R:
     root = fresh_dir("c20")
     inputs = [UNIVERSE[i] for i in c["s"]]
     head = "".join("# " + ref.build(*t) + "\n" for t in inputs)
-    if inputs:
+    if inputs and not c.get("nolic"):
         head += "#\n# SPDX-License-Identifier: MIT\n\n"
+    elif inputs:
+        head += "\n"
     (root / "f.py").write_text(head + "x = 1\n")
     argv = ["--root", str(root), "annotate", "--merge-copyrights"]
     new = []
@@ -304,7 +324,7 @@ def run(tier, seed):
     return finish(
         ID, "model_checking", MODULE, tier, seed, st, t0,
         rule=("complete products: holders x year forms x 10 prefixes (build + read-back), holders x 2 year forms x 2 prefixes x every comment style (read-back inside that style's comment), notices passed in verbatim, "
-              "every subset up to the size bound of a 36-notice universe through merge_copyright_lines, and the same through the "
+              "every subset up to the size bound of a 48-notice universe through merge_copyright_lines, and the same through the "
               "annotate CLI read back by lint; non-trivial = year or non-default prefix (build) / some holder occurs more than once (merge)"),
         bounds=bounds(tier, seed),
         assumptions=["holders that contain a copyright marker, start with a year, or end in a comment terminator are outside the asserted space (DESIGN section 3)",
